@@ -6,8 +6,10 @@ returned ({"ref": k}); observe() resolves them, so the concrete operations are p
 observation.  After every step the abstracted return value and the change of the db dict are
 recorded; the identifier the real code generated is handed to the model as its oracle value."""
 import hashlib
+import os
 import re
 
+from harness import common
 from harness import env  # noqa: F401  (puts $VERIF_REPO/src first on sys.path)
 from harness.common import Raw, cq, cq_opt
 
@@ -41,7 +43,18 @@ RULE = ("ident: (a) ALL histories of length <= 3 (thorough: <= 4) over a 10-lett
         "history of length >= 2 / distinct codec batch / distinct non-empty decode input / distinct eptid history")
 TRUSTED = ["abstraction of NameID objects to their five ATTR fields and of exceptions to their class (harness/c18.py)",
            "hashlib.md5 table handed to the model as the md5 oracle (inputs computed by the harness, not by Eptid)",
-           "compact string literals of the case files (C18.Corr.u / cat, decoded inside vm_compute)"]
+           "compact string literals of the case files (C18.Corr.u / cat, decoded inside vm_compute)",
+           "source tie (translator v2, harness/py2coq2.py + Base/Py2.v; trusted base in notes/translator_v2.md: aliasing, "
+           "object truthiness = has fields, exceptions = class names): ident.code, ident.decode, IdentDB.store, "
+           "IdentDB.find_local_id, IdentDB.match_local_id, IdentDB.handle_name_id_mapping_request, IdentDB.nim_args, "
+           "IdentDB.handle_manage_name_id_request, IdentDB.get_nameid, IdentDB.transient_nameid, IdentDB.persistent_nameid "
+           "are re-translated from the current text of "
+           "saml2/ident.py on every run (coq/gen/C18Src2.v; ATTR and NAMEID_FORMAT_* read from the current text of "
+           "ident.py / saml.py) and proved equal to the model functions in C18/Source2.v (c18_source2_*). Trusted there: "
+           "the encodings (NameID / NameIDPolicy / IdentDB as objects with exactly the attributes the code reads; NameID() "
+           "= all five attributes None; copy.copy = the value), urllib quote / unquote = Model.quote_f / unquote_f, and "
+           "that decode / create_id / construct_nameid / remove_remote / store / the local policy behave as the Section "
+           "hypotheses say where a theorem has such hypotheses"]
 ASSUMPTIONS = ["IdentDB is backed by a dict (shelve differs only in remove_local raising AttributeError on the bytes key)",
                "freshness of generated identifiers (hypothesis wf of the theorems: a value that is stored was not mentioned "
                "by an earlier operation; sha256 over 32 random bytes + 'while _id in self.db' in the code)",
@@ -66,6 +79,146 @@ SP_POOL = ["https://sp1.example.org/sp.xml", "urn:mace:sp 2", "sp,3=x", "sp%2C4"
 NQ_POOL = ["https://idp.example.org/idp.xml", "nq 2", "nq,=%"]
 SPID_POOL = ["x y", "new,id=1", "café", "%41", "0", "ID-2", " "]
 FMT_POOL = [P, P, T, T, E, U, "custom fmt,1=x"]
+
+
+# ------------------------------------------------------------------------------------- translator v2
+def _module_const(path, name):
+    """Value of the module-level assignment NAME = <literal> in the CURRENT source text."""
+    import ast
+    from harness.py2coq2 import Untranslatable
+
+    with open(path) as f:
+        tree = ast.parse(f.read())
+    for n in tree.body:
+        if isinstance(n, ast.Assign) and len(n.targets) == 1 and isinstance(n.targets[0], ast.Name) and n.targets[0].id == name:
+            try:
+                return ast.literal_eval(n.value)
+            except ValueError:
+                raise Untranslatable("module constant %s of %s is not a literal" % (name, path))
+    raise Untranslatable("module constant %s not found in %s" % (name, path))
+
+
+def _const_term(v):
+    from harness.py2coq2 import Untranslatable, cstr
+
+    if isinstance(v, str):
+        return "(PStr %s)" % cstr(v)
+    if isinstance(v, (list, tuple)):
+        return "(PList [%s])" % "; ".join(_const_term(x) for x in v)
+    raise Untranslatable("constant %r" % (v,))
+
+
+class _Lazy:
+    """dict whose values are computed (from the current source text) when the translator asks for them, so that a
+    constant that cannot be read poisons only the functions that mention it"""
+
+    def __init__(self, makers):
+        self.makers = makers
+
+    def __contains__(self, k):
+        return k in self.makers
+
+    def __getitem__(self, k):
+        return self.makers[k]()
+
+    def get(self, k, d=None):
+        return self[k] if k in self.makers else d
+
+
+def _on_str(f):
+    """Coq term: the string function f (an extra parameter of type string -> string) applied to a str value."""
+    return lambda a: "(match %s with PStr s_ => PStr (%s s_) | _ => PErr end)" % (a[0], f)
+
+
+# NameID(): a fresh saml.NameID instance = an object whose five ATTR attributes are None (SamlBase.__init__)
+EMPTY_NAMEID = ('(PObj [("__class__", PStr "NameID"); ("name_qualifier", PNone); ("sp_name_qualifier", PNone); '
+                '("format", PNone); ("sp_provided_id", PNone); ("text", PNone)])')
+
+SRC2_FUNCTIONS = ["ident.code", "ident.decode", "IdentDB.store", "IdentDB.find_local_id", "IdentDB.match_local_id",
+                  "IdentDB.handle_name_id_mapping_request", "IdentDB.nim_args", "IdentDB.handle_manage_name_id_request",
+                  "IdentDB.get_nameid", "IdentDB.transient_nameid", "IdentDB.persistent_nameid"]
+
+
+def src2_items():
+    """Translation specs (translator v2) of the anchored decision functions of saml2/ident.py.  Module constants (ATTR,
+    NAMEID_FORMAT_*) are read from the CURRENT source text.  Calls of other translated functions are linked to their
+    translation (code in store; find_local_id in the mapping / manage handlers; match_local_id in get_nameid and
+    persistent_nameid; get_nameid in transient_nameid / persistent_nameid); decode, urllib's quote / unquote,
+    create_id, the local policy and the methods whose effect is a store update (remove_remote, store, construct_nameid)
+    are extra arguments — C18/Source2.v states what is assumed about them as Section hypotheses."""
+    ident_py = os.path.join(env.SRC, "saml2", "ident.py")
+    saml_py = os.path.join(env.SRC, "saml2", "saml.py")
+    consts = _Lazy({"ATTR": lambda: _const_term(_module_const(ident_py, "ATTR")),
+                    "NAMEID_FORMAT_PERSISTENT": lambda: _const_term(_module_const(saml_py, "NAMEID_FORMAT_PERSISTENT")),
+                    "NAMEID_FORMAT_EMAILADDRESS": lambda: _const_term(_module_const(saml_py, "NAMEID_FORMAT_EMAILADDRESS")),
+                    "NAMEID_FORMAT_TRANSIENT": lambda: _const_term(_module_const(saml_py, "NAMEID_FORMAT_TRANSIENT"))})
+    exc = {"SAMLError": ["Exception"], "Unknown": ["SAMLError", "Exception"], "PolicyError": ["SAMLError", "Exception"]}
+    find_local = lambda a: "(src2_find_local_id v_self %s)" % a[0]
+    decode_ = ("decode_", "pyval -> pyval")
+    issue_ext = [decode_, ("create_", "pyval -> pyval -> pyval -> pyval -> pyval"), ("store_", "pyval -> pyval -> pyval -> pyval")]
+    get_nameid = lambda a: "(src2_get_nameid decode_ create_ store_ v_self %s %s %s %s)" % tuple(a)
+    return [
+        (ident_py, "code", {"name": "src2_code", "params": ["item"], "globals": consts, "exc_parents": exc,
+                            "extra_params": [("quote", "string -> string")], "calls": {"quote": _on_str("quote")}}),
+        (ident_py, "decode", {"name": "src2_decode", "params": ["txt"], "globals": consts, "exc_parents": exc,
+                              "extra_params": [("unquote", "string -> string")],
+                              "calls": {"NameID": lambda a: EMPTY_NAMEID, "unquote": _on_str("unquote")}}),
+        (ident_py, "IdentDB.store", {"name": "src2_store", "params": ["self", "ident", "name_id"], "returns_state": ["self"],
+                                     "globals": consts, "exc_parents": exc, "extra_params": [("quote", "string -> string")],
+                                     "calls": {"code": lambda a: "(src2_code quote %s)" % a[0]}}),
+        (ident_py, "IdentDB.find_local_id", {"name": "src2_find_local_id", "params": ["self", "name_id"], "globals": consts,
+                                             "exc_parents": exc}),
+        (ident_py, "IdentDB.match_local_id", {"name": "src2_match_local_id",
+                                              "params": ["self", "userid", "sp_name_qualifier", "name_qualifier"],
+                                              "globals": consts, "exc_parents": exc, "extra_params": [decode_],
+                                              "calls": {"decode": lambda a: "(decode_ %s)" % a[0]}}),
+        (ident_py, "IdentDB.handle_name_id_mapping_request", {
+            "name": "src2_name_id_mapping", "params": ["self", "name_id", "name_id_policy"], "globals": consts, "exc_parents": exc,
+            "extra_params": [decode_, ("construct_", "pyval -> pyval -> pyval -> pyval")],
+            "calls": {"decode": lambda a: "(decode_ %s)" % a[0], "self.find_local_id": find_local,
+                      "self.construct_nameid": lambda a, kw: "(construct_ v_self %s %s)" % (a[0], kw["name_id_policy"])}}),
+        (ident_py, "IdentDB.nim_args", {
+            "name": "src2_nim_args", "params": ["self", "local_policy", "sp_name_qualifier", "name_id_policy", "name_qualifier"],
+            "globals": consts, "exc_parents": exc, "extra_params": [("lp_format", "pyval -> pyval -> pyval")],
+            "calls": {"local_policy.get_nameid_format": lambda a: "(lp_format v_local_policy %s)" % a[0]}}),
+        (ident_py, "IdentDB.handle_manage_name_id_request", {
+            "name": "src2_manage_name_id", "params": ["self", "name_id", "new_id", "new_encrypted_id", "terminate"],
+            "globals": consts, "exc_parents": exc,
+            "extra_params": [("remove_", "pyval -> pyval -> pyval"), ("store_", "pyval -> pyval -> pyval -> pyval")],
+            # copy.copy: values are immutable in the embedding, a copy is the value (aliasing is not modelled)
+            "calls": {"copy.copy": lambda a: a[0], "self.find_local_id": find_local,
+                      "self.remove_remote": lambda a: "(remove_ v_self %s)" % a[0],
+                      "self.store": lambda a: "(store_ v_self %s %s)" % (a[0], a[1])}}),
+        (ident_py, "IdentDB.get_nameid", {
+            "name": "src2_get_nameid", "params": ["self", "userid", "nformat", "sp_name_qualifier", "name_qualifier"],
+            "globals": consts, "exc_parents": exc,
+            "extra_params": issue_ext,
+            "calls": {"self.match_local_id": lambda a: "(src2_match_local_id decode_ v_self %s %s %s)" % tuple(a),
+                      "self.create_id": lambda a: "(create_ v_self %s %s %s)" % tuple(a),
+                      "self.store": lambda a: "(store_ v_self %s %s)" % (a[0], a[1]),
+                      # NameID(format=, sp_name_qualifier=, name_qualifier=, text=): the other attributes stay None
+                      "NameID": lambda a, kw: ('(PObj [("__class__", PStr "NameID"); ("name_qualifier", %s); '
+                                               '("sp_name_qualifier", %s); ("format", %s); ("sp_provided_id", PNone); ("text", %s)])'
+                                               % (kw["name_qualifier"], kw["sp_name_qualifier"], kw["format"], kw["text"]))}}),
+        (ident_py, "IdentDB.transient_nameid", {
+            "name": "src2_transient_nameid", "params": ["self", "userid", "sp_name_qualifier", "name_qualifier"],
+            "globals": consts, "exc_parents": exc, "extra_params": issue_ext, "calls": {"self.get_nameid": get_nameid}}),
+        (ident_py, "IdentDB.persistent_nameid", {
+            "name": "src2_persistent_nameid", "params": ["self", "userid", "sp_name_qualifier", "name_qualifier"],
+            "globals": consts, "exc_parents": exc, "extra_params": issue_ext,
+            "calls": {"self.get_nameid": get_nameid,
+                      "self.match_local_id": lambda a: "(src2_match_local_id decode_ v_self %s %s %s)" % tuple(a)}}),
+    ]
+
+
+def regenerate_tables(ctx):
+    """Translator v2: eleven functions of saml2/ident.py as they read NOW -> coq/gen/C18Src2.v (C18/Source2.v proves each
+    equal to the model function it mirrors; Property.v re-states the theorems as c18_source2_*)."""
+    from harness import py2coq2
+    info = py2coq2.regenerate(os.path.join(common.GEN, "C18Src2.v"), src2_items())
+    return {"obligations": info["obligations"], "discharged": info["discharged"],
+            "untranslatable": list(info["untranslatable"]), "translated": list(info["translated"]),
+            "changed": bool(info["changed"])}
 
 
 # ------------------------------------------------------------------------------------- generation
@@ -660,7 +813,14 @@ def observe_ident(case):
             out = _abs_out(r)
         except Exception as ex:  # the exception class is part of the observation
             out = ["exc", _exc_name(ex)]
-        after = _snapshot(idb.db)
+        try:
+            after = _snapshot(idb.db)
+        except TypeError:
+            # a non-str key / value got into the store (only a changed implementation does that): outside the model's
+            # state space.  The step is recorded as an unmodelled outcome (the model disagrees) and the history ends.
+            conc["fresh"] = ""
+            steps.append({"op": conc, "out": ["other", "non-str db entry"], "diff": []})
+            return {"steps": steps, "final": sorted(before.items())}
         # oracle value: the identifier the real code generated = text of the returned NameID
         # (minus the "@domain" the e-mail format appends); unused by the model when nothing is issued
         fresh = ""
